@@ -8,7 +8,12 @@
                  read  = [serial, name, resname, resid, chain, icode, x, y, z, mol] (what the reader returned)
    pdbstruct     [kind, sizes, bonds : Seq(<<g1, g2>>), layout : Seq([rec, n]), ters : Seq([line, resname, chain, resid, icode]),
                   conect : Seq(STRING), read_sizes, read_bonds, readerr]
-   grostruct     [kind, natoms, count_line, natomlines, nread, readerr]                                          *)
+   grostruct     [kind, natoms, count_line, natomlines, nread, readerr, w, vel, first_line]
+   fpdb          a PDB file NOT written by vermouth, read by the real reader:
+                 [kind, lines : Seq(STRING) (the whole file), modelidx, back : Seq(read atom + altloc, elem, charge),
+                  read_sizes, read_bonds : Seq(<<k1, k2>>) (positions in reading order), readerr,
+                  rewrite1, rewrite2 : Seq(STRING)]   (what was read written out, and that read and written once more)
+   fgro          a GRO file NOT written by vermouth: [kind, lines, back : Seq(read atom), nbox, readerr, rewrite1, rewrite2] *)
 EXTENDS FixedColOps, Json, IOUtils
 
 Batch == JsonDeserialize(IOEnv.TRACE_FILE)
@@ -16,10 +21,12 @@ Batch == JsonDeserialize(IOEnv.TRACE_FILE)
 VARIABLES tid, verdict
 vars == <<tid, verdict>>
 
-WT(fmt) == IF fmt = "pdb" THEN PdbAtomW ELSE GroAtomW
-RT(fmt) == IF fmt = "pdb" THEN PdbAtomR ELSE GroAtomR
+(* GRO events carry the coordinate column width `w` the file was written with (write_gro precision + 1) and whether it
+   has velocities; attrs / read atoms then carry vx, vy, vz (integer ten-thousandths of nm/ps) *)
+WT(e) == IF e.fmt = "pdb" THEN PdbAtomW ELSE GroAtomWPV(e.w, e.vel)
+RT(e) == IF e.fmt = "pdb" THEN PdbAtomR ELSE GroAtomWPV(e.w, e.vel)
 BlankCols(fmt) == IF fmt = "pdb" THEN PdbAtomBlank ELSE {}
-MinLen(fmt) == IF fmt = "pdb" THEN 54 ELSE 44
+MinLen(e) == IF e.fmt = "pdb" THEN 54 ELSE GroLineLen(e.w, e.vel)
 Least(S) == CHOOSE x \in S : \A y \in S : x <= y
 Slice(f, line) == Strip(Cut(line, f.start, f.start + f.w - 1))
 
@@ -27,11 +34,11 @@ JudgeAtom(e, k, cum, fits, part) ==      \* part = "line": the text by the colum
   LET g    == e.g0 + k - 1
       m    == MolOfC(cum, g)
       a    == e.atoms[k]
-      W    == WT(e.fmt)
-      R    == RT(e.fmt)
-      rec  == [rec |-> "ATOM", serial |-> IF e.fmt = "pdb" THEN Serial(g, m) ELSE g, name |-> a.name, altloc |-> "",
+      W    == WT(e)
+      R    == RT(e)
+      rec  == [rec |-> "ATOM", serial |-> IF e.fmt = "pdb" THEN Serial(g, m) ELSE g, name |-> a.name, altloc |-> a.altloc,
                resname |-> a.resname, chain |-> a.chain, resid |-> a.resid, icode |-> a.icode,
-               x |-> a.x, y |-> a.y, z |-> a.z, elem |-> a.elem]
+               x |-> a.x, y |-> a.y, z |-> a.z, elem |-> a.elem, vx |-> a.vx, vy |-> a.vy, vz |-> a.vz]
       line == e.lines[k]
       txt(f) == TextOf(f.kind, rec[f.name])
       badf == {i \in DOMAIN W : Slice(W[i], line) \notin Admissible(W[i], txt(W[i]))}
@@ -44,7 +51,8 @@ JudgeAtom(e, k, cum, fits, part) ==      \* part = "line": the text by the colum
        (IF badb # {} THEN "read-back: " \o R[Least(badb)].name \o " differs from what was written"
         ELSE IF e.fmt = "pdb" /\ fits /\ b.mol # m THEN "read-back: atom landed in molecule " \o ToString(b.mol) \o " instead of " \o ToString(m)
         ELSE "ok")
-     ELSE IF Len(line) < MinLen(e.fmt) THEN "line-too-short"
+     ELSE IF Len(line) < MinLen(e) THEN "line-too-short"
+     ELSE IF e.fmt = "gro" /\ Len(line) # MinLen(e) THEN "column-table: line longer than the fields of a file of this width"
      ELSE IF badf # {} THEN
             LET f == W[Least(badf)] IN
             IF FitsW(txt(f), f.w) THEN "column-table: field " \o f.name \o " shifted or corrupted, columns hold '" \o Slice(f, line) \o "'"
@@ -107,14 +115,110 @@ JudgePdbStruct(e) ==
      ELSE "ok"
 
 JudgeGroStruct(e) ==
-  IF e.readerr # "" THEN "round trip failed: " \o e.readerr
+  IF e.natomlines > 0 /\ DotWidth(e.first_line) # e.w THEN "first atom line does not show the column width the file was written with"
+  ELSE IF e.natomlines > 0 /\ HasVel(e.first_line) # e.vel THEN "first atom line does not show whether the file has velocities"
+  ELSE IF e.readerr # "" THEN "round trip failed: " \o e.readerr
   ELSE IF ParseInt(Strip(e.count_line)) # e.natoms THEN "atom count line differs"
   ELSE IF e.natomlines # e.natoms THEN "number of atom lines differs"
   ELSE IF e.nread # e.natoms THEN "read-back: number of atoms differs"
   ELSE "ok"
 
+(* ------------------------------------------------------------------------------------------------------------
+   Files that vermouth did not write.  TLC reads the TEXT with the column tables: which lines are atoms of the model
+   asked for, which alternate locations stay (blank or A), where TER / END / ENDMDL close a molecule, what every
+   column holds, which atoms the CONECT records (continuation lines, unseparated five-wide serials) join - and
+   compares with what the real reader returned.                                                                  *)
+Greatest(S) == CHOOSE x \in S : \A y \in S : y <= x
+RecName(line) == Strip(Cut(line, 1, 6))
+SkipRecs == {"HEADER", "TITLE", "COMPND", "SOURCE", "KEYWDS", "EXPDTA", "AUTHOR", "REVDAT", "JRNL", "REMARK", "DBREF", "SEQADV",
+             "SEQRES", "MODRES", "HET", "HETNAM", "HETSYN", "FORMUL", "HELIX", "SHEET", "SSBOND", "LINK", "CISPEP", "SITE",
+             "CRYST1", "ORIGX1", "ORIGX2", "ORIGX3", "SCALE1", "SCALE2", "SCALE3", "MTRIX1", "MTRIX2", "MTRIX3", "ANISOU",
+             "MASTER", "NUMMDL", "MDLTYP", "CAVEAT", "OBSLTE", "SPLT", "SPRSDE", "DBREF1", "DBREF2"}
+UsedRecs == {"ATOM", "HETATM", "TER", "END", "ENDMDL", "MODEL", "CONECT"}
+
+FPdbView(L, modelidx) ==
+  LET n  == Len(L)
+      rn == [i \in 1..n |-> RecName(L[i])]
+      modelnr(i) == ParseInt(Strip(Cut(L[i], 11, 14)))
+      models  == {i \in 1..n : rn[i] = "MODEL" /\ modelnr(i) # BAD}
+      skipped(i) == LET ms == {j \in models : j < i} IN ms # {} /\ modelnr(Greatest(ms)) # modelidx
+      kept    == SelectSeq([i \in 1..n |-> i], LAMBDA i : /\ rn[i] \in {"ATOM", "HETATM"} /\ ~skipped(i)
+                                                            /\ Strip(Cut(L[i], 17, 17)) \in {"", "A"})
+      closers == {i \in 1..n : rn[i] \in {"TER", "END", "ENDMDL"}}
+      starts  == {k \in 1..Len(kept) : k = 1 \/ \E c \in closers : kept[k - 1] < c /\ c < kept[k]}
+      molOf   == [k \in 1..Len(kept) |-> Cardinality({st \in starts : st <= k})]
+      conect  == SelectSeq([i \in 1..n |-> i], LAMBDA i : rn[i] = "CONECT")
+  IN [rn |-> rn, kept |-> kept, molOf |-> molOf, nmol |-> Cardinality(starts),
+      sizes |-> [m \in 1..Cardinality(starts) |-> Cardinality({k \in 1..Len(kept) : molOf[k] = m})],
+      want |-> [k \in 1..Len(kept) |-> Read(PdbAtomRF, L[kept[k]])],
+      ids |-> [j \in 1..Len(conect) |-> ConectIds(L[conect[j]])],
+      dropped |-> Cardinality({i \in 1..n : rn[i] \in {"ATOM", "HETATM"}}) - Len(kept)]
+
+FPdbBonds(v) ==       \* pairs of positions (reading order) joined by the CONECT records; serials naming no kept atom are ignored
+  LET ser(k) == v.want[k][FieldIdx(PdbAtomRF, "serial")]
+      pos(id) == {k \in 1..Len(v.kept) : ser(k) = id}
+  IN UNION {UNION {{<<Min(a, b), Max(a, b)>> : a \in pos(v.ids[j][1]), b \in pos(v.ids[j][t])} : t \in 2..Len(v.ids[j])} : j \in DOMAIN v.ids}
+
+JudgeFAtom(want, b, mol) ==        \* -> "" or the name of the first differing field
+  LET R == PdbAtomRF
+      num(nm) == want[FieldIdx(R, nm)]
+      bad == {i \in DOMAIN R : /\ R[i].name \notin {"elem", "charge"}
+                               /\ b[R[i].name] # want[i]}
+  IN IF bad # {} THEN R[Least(bad)].name
+     ELSE IF num("elem") # "" /\ b.elem # num("elem") THEN "elem"
+     ELSE IF b.charge # ParseCharge(num("charge")) THEN "charge"
+     ELSE IF b.mol # mol THEN "molecule"
+     ELSE ""
+
+JudgeRewrite(e) == IF e.rewrite1 = <<>> THEN "writing what was read failed"
+                   ELSE IF e.rewrite1 # e.rewrite2 THEN "what was read, written and read again is written differently the second time"
+                   ELSE "ok"
+
+JudgeFPdb(e) ==
+  LET L == e.lines
+      v == FPdbView(L, e.modelidx)
+      nk == Len(v.kept)
+      bonds == FPdbBonds(v)
+      norm(S) == {<<Min(bd[1], bd[2]), Max(bd[1], bd[2])>> : bd \in S}
+      badat == {k \in 1..Min(nk, Len(e.back)) : JudgeFAtom(v.want[k], e.back[k], v.molOf[k]) # ""}
+      sers == {v.want[k][FieldIdx(PdbAtomRF, "serial")] : k \in 1..nk}
+  IN \* is the file inside what is specified at all?  (generator errors, not verdicts on vermouth)
+     IF \E i \in DOMAIN L : v.rn[i] \notin SkipRecs \cup UsedRecs THEN "unspecified: record " \o v.rn[CHOOSE i \in DOMAIN L : v.rn[i] \notin SkipRecs \cup UsedRecs]
+     ELSE IF Cardinality(sers) # nk \/ BAD \in sers THEN "unspecified: serial numbers of the kept atoms repeat or are unreadable"
+     ELSE IF \E bd \in bonds : v.molOf[bd[1]] # v.molOf[bd[2]] THEN "unspecified: CONECT across a TER"
+     ELSE IF \E j \in DOMAIN v.ids : Len(v.ids[j]) < 2 \/ BAD \in SeqSet(v.ids[j]) THEN "unspecified: unreadable CONECT"
+     ELSE IF e.readerr # "" THEN "foreign-pdb: " \o e.readerr
+     ELSE IF Len(e.back) # nk THEN "foreign-pdb: " \o ToString(Len(e.back)) \o " atoms read, the text holds " \o ToString(nk)
+                                     \o " ATOM/HETATM records of model " \o ToString(e.modelidx) \o " with blank or A alternate location"
+     ELSE IF badat # {} THEN "foreign-pdb: atom " \o ToString(Least(badat)) \o " (line " \o ToString(v.kept[Least(badat)]) \o "): "
+                             \o JudgeFAtom(v.want[Least(badat)], e.back[Least(badat)], v.molOf[Least(badat)]) \o " differs from the columns of the text"
+     ELSE IF e.read_sizes # v.sizes THEN "foreign-pdb: division into molecules differs from TER / END / ENDMDL of the text"
+     ELSE IF norm(SeqSet(e.read_bonds)) # bonds THEN
+            (IF norm(SeqSet(e.read_bonds)) \subseteq bonds THEN "foreign-pdb: bonds of the CONECT records missing"
+             ELSE "foreign-pdb: bonds that no CONECT record states")
+     ELSE JudgeRewrite(e)
+
+JudgeFGro(e) ==
+  LET L   == e.lines
+      n   == Len(L)
+      cnt == IF n >= 2 THEN ParseInt(Strip(L[2])) ELSE BAD
+      w   == DotWidth(L[3])
+      vel == HasVel(L[3])
+      R   == GroAtomWPV(w, vel)
+      bad == {k \in 1..cnt : LET want == Read(R, L[2 + k]) IN \E i \in DOMAIN R : e.back[k][R[i].name] # want[i]}
+  IN IF cnt = BAD \/ cnt < 1 \/ n # cnt + 3 THEN "unspecified: not a GRO file (title, count, atoms, box)"
+     ELSE IF w < 5 THEN "unspecified: no column width in the first atom line"
+     ELSE IF \E k \in 1..cnt : Len(L[2 + k]) # GroLineLen(w, vel) THEN "unspecified: atom lines of different lengths"
+     ELSE IF e.readerr # "" THEN "foreign-gro: " \o e.readerr
+     ELSE IF Len(e.back) # cnt THEN "foreign-gro: " \o ToString(Len(e.back)) \o " atoms read, the count line says " \o ToString(cnt)
+     ELSE IF bad # {} THEN "foreign-gro: atom " \o ToString(Least(bad)) \o " differs from the columns of the text (width " \o ToString(w) \o ")"
+     ELSE IF e.nbox # Tokens(L[n]) THEN "foreign-gro: box line read as " \o ToString(e.nbox) \o " numbers"
+     ELSE JudgeRewrite(e)
+
 Judge(e) == IF e.kind = "atoms" THEN JudgeAtoms(e)
             ELSE IF e.kind = "pdbstruct" THEN JudgePdbStruct(e)
+            ELSE IF e.kind = "fpdb" THEN JudgeFPdb(e)
+            ELSE IF e.kind = "fgro" THEN JudgeFGro(e)
             ELSE JudgeGroStruct(e)
 
 Init == tid \in 1..Len(Batch) /\ verdict = "pending"
